@@ -374,15 +374,38 @@ Fixpoint dedup_edges (es : list (lockid * lockid)) : list (lockid * lockid) :=
   | e :: es' => if existsb (edge_eqb e) es' then dedup_edges es' else e :: dedup_edges es'
   end.
 
+(** * Known findings (from /verif/known_findings/C18.json, written into the
+    evaluation file by tools/c18.py): a flagged access is explained when its
+    function (closure suffix "$n" stripped), struct, field path and kind are listed *)
+Definition known_site := (str * str * str * rw)%type.
+
+Definition strip_closure (s : str) : str :=
+  match index_byte s x24 with Some n => firstn n s | None => s end.
+
+Definition rw_eqb (a b : rw) : bool := match a, b with Rd, Rd => true | Wr, Wr => true | _, _ => false end.
+
+Definition is_known (nm : names) (ks : list known_site) (v : violation) : bool :=
+  match v with
+  | VUnguarded f st fld k _ =>
+      existsb (fun e => match e with (kf, kst, kfld, kk) =>
+                          str_eqb (strip_closure (name_of nm f)) kf && str_eqb (name_of nm st) kst &&
+                          str_eqb (name_of nm fld) kfld && rw_eqb k kk end) ks
+  | _ => false
+  end.
+
+Definition unexplained (nm : names) (ks : list known_site) (vs : list violation) : list violation :=
+  filter (fun v => negb (is_known nm ks v)) vs.
+
 (** everything the check needs, in one evaluation *)
 Record verdict := mkVerdict {
-  v_violations : list violation; v_acyclic : bool; v_stats : stats; v_edges : list (lockid * lockid);
-  v_ctors : list id }.
-Definition verdict_of (nm : names) (fs : list fact) (d : discipline) : verdict :=
+  v_violations : list violation; v_unexplained : list violation; v_acyclic : bool; v_stats : stats;
+  v_edges : list (lockid * lockid); v_ctors : list id }.
+Definition verdict_of (nm : names) (fs : list fact) (d : discipline) (ks : list known_site) : verdict :=
   let m := entry_held fs in
   let cs := ctor_set nm fs d in
   let edges := order_edges fs in
-  mkVerdict (check_with nm fs d m cs) (lock_order_acyclic fs) (stats_with nm fs d m cs edges) (dedup_edges edges) cs.
+  let vs := check_with nm fs d m cs in
+  mkVerdict vs (unexplained nm ks vs) (lock_order_acyclic fs) (stats_with nm fs d m cs edges) (dedup_edges edges) cs.
 
 (** * The discipline of internal/server (DESIGN.md Appendix B, checked against the code) *)
 
